@@ -637,8 +637,15 @@ def oracle(ctx, Surrogates, RecurrencePlot, rng, nprng, quick):
         pristine = data.copy()
         hist = []
         for call in range(rng.choice([1, 2, 3, 4])):
-            g = rng.choice(["white", "fourier", "aaft", "refined", "refined_s", "twin"])
+            g = rng.choice(["white", "fourier", "aaft", "refined", "refined_s", "twin", "normalize"])
             hist.append(g)
+            if g == "normalize":
+                # the documented mutator: from now on the guarantees refer to the normalised data
+                with quiet():
+                    s.normalize_original_data()
+                pristine = s.original_data.copy()
+                ctx.count("oracle:normalize")
+                continue
             rep = {"data": pristine.tolist(), "numpy_and_random_seed": seed, "history": list(hist)}
             ctx.count(f"oracle:{g}")
             try:
